@@ -827,3 +827,87 @@ func deepReturns(c *core.Ctx, fn *ssa.Function) []retCtx {
 	}
 	return out
 }
+
+// lockLeaks: for every Lock/RLock call in fn, a path from the call to a return that passes neither an
+// Unlock/RUnlock of the same mutex path nor a `defer` of one (the deferred call runs at the return).
+type lockLeak struct {
+	Lock ssa.Instruction
+	Path string
+	Ret  ssa.Instruction
+	W    []core.Step
+}
+
+func lockLeaks(fn *ssa.Function) []lockLeak {
+	var out []lockLeak
+	core.Instrs(fn, func(in ssa.Instruction) {
+		cl, ok := in.(*ssa.Call)
+		if !ok {
+			return
+		}
+		path, op := core.LockOp(&cl.Call)
+		if op != "Lock" && op != "RLock" {
+			return
+		}
+		release := map[string]bool{"Lock": false}
+		_ = release
+		want := "Unlock"
+		if op == "RLock" {
+			want = "RUnlock"
+		}
+		isRelease := func(x ssa.Instruction) bool {
+			switch y := x.(type) {
+			case *ssa.Call:
+				p2, o2 := core.LockOp(&y.Call)
+				return o2 == want && p2 == path
+			case *ssa.Defer:
+				p2, o2 := core.LockOp(&y.Call)
+				if o2 == want && p2 == path {
+					return true
+				}
+				// defer func() { …Unlock() }()
+				if mc, ok := y.Call.Value.(*ssa.MakeClosure); ok {
+					found := false
+					core.Instrs(mc.Fn.(*ssa.Function), func(z ssa.Instruction) {
+						if c2, ok := z.(*ssa.Call); ok {
+							if _, o3 := core.LockOp(&c2.Call); o3 == want {
+								found = true
+							}
+						}
+					})
+					return found
+				}
+			}
+			return false
+		}
+		// a defer registered BEFORE the lock also covers it
+		deferredBefore := false
+		q0 := &core.Q{Fn: fn, NoHelpers: true}
+		core.Instrs(fn, func(x ssa.Instruction) {
+			if d, ok := x.(*ssa.Defer); ok && isRelease(d) {
+				if found, _, _ := q0.Reach(d, func(t ssa.Instruction) bool { return t == in }); found {
+					deferredBefore = true
+				}
+			}
+		})
+		if deferredBefore {
+			return
+		}
+		q := &core.Q{Fn: fn, NoPass: isRelease, NoHelpers: true}
+		if found, w, hit := q.Reach(in, core.IsReturn); found {
+			out = append(out, lockLeak{in, path, hit, w})
+		}
+	})
+	return out
+}
+
+// LockLeakSurvey prints every lock leak candidate of the module (debugging aid).
+func LockLeakSurvey(p *core.Prog) {
+	for _, fn := range p.Funcs {
+		if strings.HasSuffix(p.Fset.Position(fn.Pos()).Filename, "_test.go") {
+			continue
+		}
+		for _, l := range lockLeaks(fn) {
+			fmt.Printf("%s\t%s\t%s\treturn at %s\n", fname(fn), l.Path, p.InstrPos(l.Lock), p.InstrPos(l.Ret))
+		}
+	}
+}
